@@ -525,6 +525,23 @@ impl<'a> Interp<'a> {
                 self.out.push(Obs::Mark { tag: tag.clone(), args: a, config });
                 true
             }
+            Exec::Assign { loc, expr } if loc.ends_with(']') && loc.contains('[') => {
+                // element of an array variable: name[index]
+                let (name, idx) = loc.trim_end_matches(']').split_once('[').unwrap();
+                let idx: usize = idx.parse().unwrap_or(usize::MAX);
+                let v = self.eval(expr);
+                let ok = match (v, self.data.get_mut(name)) {
+                    (Ok(val), Some(Val::Arr(a))) if idx < a.len() && !matches!(val, Val::Unset) => {
+                        a[idx] = val;
+                        true
+                    }
+                    _ => false,
+                };
+                if !ok {
+                    self.error_execution();
+                }
+                ok
+            }
             Exec::Assign { loc, expr } => {
                 let v = self.eval(expr);
                 // location: a declared, writable variable (or a member of one)
@@ -613,8 +630,9 @@ impl<'a> Interp<'a> {
             Exec::Send { event, target, delay_ms, id, params, idlocation, .. } => {
                 let mut pv = Vec::new();
                 for (k, e) in params {
+                    let k = k.strip_prefix("@loc:").unwrap_or(k).to_string();
                     match self.eval(e) {
-                        Ok(v) => pv.push((k.clone(), v)),
+                        Ok(v) => pv.push((k, v)),
                         Err(_) => self.error_execution(), // the param is ignored
                     }
                 }
